@@ -6,7 +6,8 @@ import Pathrs.Flags
 
 Each wrapper forces its flags, makes exactly one call and, on failure, builds an
 error value whose construction *itself* talks to the kernel: `FrozenFd::from`
-resolves `/proc/thread-self/fd/N` for the message text (`freeze` below).
+resolves `/proc/thread-self/fd/N` for the message text (`freeze` below).  `exists_at`
+is the exception: it reports a failing call as `false` and builds no error value.
 -/
 
 open K
@@ -54,38 +55,51 @@ def geteuid : Prog Nat :=
 def threadSelfCandidates (tid : Nat) : List Bytes :=
   [b!"thread-self", b!"self/task/" ++ Path.decimal tid, b!"self"]
 
-/-- The diagnostic lookup done while an error value is built
-(`FrozenFd::from` → `as_unsafe_path_unchecked`).  A failing probe builds another
-error value, hence the recursion; the real code has no bound, the model stops
-after `fuel` nested failures and reports `false`.  The result of the lookup is
-only used for message text. -/
-def freeze : Nat → Fd → Prog Bool
-  | 0, _ => .ret false
-  | fuel + 1, fd =>
-    -- ProcfsBase::ProcThreadSelf.into_path(None)
-    Prog.bind gettid fun tid =>
-    let rec probe : List Bytes → Prog (Option (Option Bytes))
-      | [] => .ret (some none)      -- `expect("at least one candidate ...")` panics
-      | cand :: rest =>
-        .call (.fstatat AT_FDCWD (b!"/proc/" ++ cand) STAT_FLAGS) fun
-          | .err _ => Prog.bind (freeze fuel AT_FDCWD) fun ok => if ok then probe rest else .ret none
-          | _ => .ret (some (some cand))
-    Prog.bind (probe (threadSelfCandidates tid)) fun
-      | none => .ret false
-      | some none => .ret false
-      | some (some base) =>
-        match procSubpath fd with
-        | .error _ => .ret true
-        | .ok sub => .call (.readlinkAbs (b!"/proc/" ++ base ++ b!"/" ++ sub)) fun _ => .ret true
+/-- `exists_at`: the descriptor test of the other wrappers, then one `fstatat` with the
+forced flags; reports whether the call succeeded.  No error value is built on failure, so
+none of the diagnostic calls below are made (repair of finding F26). -/
+def existsAt (dir : Fd) (name : Bytes) : Prog Bool :=
+  match hotfix dir with
+  | .error _ => .ret false
+  | .ok _ =>
+    .call (.fstatat dir name STAT_FLAGS) fun
+      | .nums (_ :: _ :: _ :: _) => .ret true
+      | _ => .ret false
 
-def diagFuel : Nat := 3
+/-- The diagnostic lookup done while an error value is built
+(`FrozenFd::from` → `as_unsafe_path_unchecked`): `gettid`, then
+`ProcfsBase::ProcThreadSelf.into_path(None)` probes the candidate spellings of the
+thread-self directory with `exists_at(AT_FDCWD, "/proc/<cand>")`, stopping at the first one
+that exists, then one `readlink` below the chosen directory whose outcome is only used for
+message text.
+
+A failing probe builds no error value: it just moves on to the next candidate, and when
+no candidate exists the first spelling `thread-self` is used (before the repair of finding
+F26 a failing probe built another error value, which froze `AT_FDCWD` in turn and so
+recursed without bound when `/proc/thread-self` could not be found, and an exhausted
+candidate list panicked).  The lookup therefore always completes, with at most five
+calls, and needs no fuel. -/
+def freeze (fd : Fd) : Prog Unit :=
+  -- ProcfsBase::ProcThreadSelf.into_path(None)
+  Prog.bind gettid fun tid =>
+  Prog.bind (probe (threadSelfCandidates tid)) fun base =>
+    match procSubpath fd with
+    | .error _ => .ret ()
+    | .ok sub => .call (.readlinkAbs (b!"/proc/" ++ base ++ b!"/" ++ sub)) fun _ => .ret ()
+where
+  /-- the first candidate that exists, else the first spelling -/
+  probe : List Bytes → Prog Bytes
+    | [] => .ret b!"thread-self"
+    | cand :: rest =>
+      .call (.fstatat AT_FDCWD (b!"/proc/" ++ cand) STAT_FLAGS) fun
+        | .err _ => probe rest
+        | _ => .ret cand
 
 /-- build an `OsError e` after freezing the descriptors named in the message -/
 def failWith (fds : List Fd) (e : Nat) : M α :=
   let rec go : List Fd → Prog (Except Err α)
     | [] => .ret (.error (.os e))
-    | fd :: rest => Prog.bind (freeze diagFuel fd) fun ok =>
-        if ok then go rest else .ret (.error (.panic "error-message construction recursed or found no /proc/thread-self"))
+    | fd :: rest => Prog.bind (freeze fd) fun _ => go rest
   go fds
 
 /-- `openat_follow`: adds `O_CLOEXEC|O_NOCTTY` -/
